@@ -27,6 +27,7 @@ type flight struct {
 }
 
 type tokOracle struct {
+	mtBurntDown map[string]uint64 // vouchers burnt by their holders, per escrow one hop back
 	h       *AppH
 	flights []*flight
 	// native NFTs minted by users and not burned: origin chain, class, id
@@ -186,6 +187,51 @@ func (o *tokOracle) checkMT(step int) {
 			base = f.Class
 		}
 		held[origin+"|"+base+"|"+f.ID] += f.Amount
+	}
+	// escrow on X of a class = vouchers of that class one hop further on, over all chains
+	// (evaluated when no MT packet is in flight, so that the in-flight term is zero)
+	inflight := false
+	for _, f := range o.flights {
+		if f.Mod == "MT" && !f.Settled {
+			inflight = true
+		}
+	}
+	if !inflight {
+		escrow := map[string]uint64{}
+		down := map[string]uint64{}
+		for x := range h.chains {
+			l := h.Ledger(x)
+			for _, b := range l.MtBal {
+				if b.Owner == esc {
+					escrow[h.names[x]+"|"+b.Class+"|"+b.ID] += b.Amount
+				}
+			}
+			for _, sp := range l.MtSupply {
+				chains, base, voucher := splitClass("MT", sp.Class)
+				if !voucher || len(chains) < 2 || chains[len(chains)-1] != h.names[x] {
+					continue
+				}
+				parent := chains[len(chains)-2]
+				pclass := base
+				if len(chains) > 2 {
+					pclass = "tibc-mt/" + strings.Join(chains[:len(chains)-1], "/") + "/" + base
+				}
+				down[parent+"|"+pclass+"|"+sp.ID] += sp.Amount
+			}
+		}
+		keys := map[string]bool{}
+		for k := range escrow {
+			keys[k] = true
+		}
+		for k := range down {
+			keys[k] = true
+		}
+		for k := range keys {
+			if escrow[k] != down[k]+o.mtBurntDown[k] {
+				o.fail("C05:escrow-ne-downstream", fmt.Sprintf("escrow %s holds %d but the vouchers one hop further on amount to %d", k, escrow[k], down[k]),
+					map[string]any{"step": step, "escrow": k, "held": escrow[k], "downstream": down[k]})
+			}
+		}
 	}
 	for k, minted := range o.mtMinted {
 		parts := strings.SplitN(k, "|", 3)
@@ -501,6 +547,16 @@ func randomTokenHistory(h *AppH, o *tokOracle, r *rand.Rand, cfg tokCfg) {
 						base = b.Class
 					}
 					o.mtMinted[fmt.Sprintf("%d|%s|%s", oi, base, b.ID)] -= amt
+					if v && len(chains) >= 2 { // burnt vouchers stay backed by the escrow one hop back
+						pclass := base
+						if len(chains) > 2 {
+							pclass = "tibc-mt/" + strings.Join(chains[:len(chains)-1], "/") + "/" + base
+						}
+						if o.mtBurntDown == nil {
+							o.mtBurntDown = map[string]uint64{}
+						}
+						o.mtBurntDown[chains[len(chains)-2]+"|"+pclass+"|"+b.ID] += amt
+					}
 				}
 			default: // owner mints more of a native MT
 				for _, m := range mts {
